@@ -8,7 +8,7 @@ def run(rep):
     rep.rule = ('real serve nodes spawned in-process on ephemeral ports over generated Parquet tables (fact f with NULLs, commas, quotes, newlines, non-ASCII strings; dimension d; empty e). '
                 '(A) every load outcome {held then ok, held then fail, fail}: while loading or after a failed load /healthz is 200, /readyz is not, POST /sql (every mode) and POST /fragment answer 503, a failed load reports its reason; '
                 '(B) clusters of 1, 2 and 3 members up x mode {default, auto, 0, 1} x format {arrow, json, csv} x 11 statements: x-qe-distributed equals (mode, members up >= 2, plan_distributed accepts the shape), a local answer in auto/off mode carries a reason, '
-                'x-qe-rows equals the row count, and the Arrow / JSON / CSV body decoded by an independent reader holds exactly the rows ctx.sql returns on that node; invalid parameters and statements are refused; '
+                'x-qe-rows equals the row count, and the Arrow / JSON / CSV body decoded by an independent reader holds exactly the rows ctx.sql returns on that node; invalid parameters and statements are refused; (B2) every membership view of a node with two peers, each absent / discovered but never probed / up / down (16 views, set through the Membership API with discovery parked): the same decision and encoding oracle with members up = 1 + peers in state up; '
                 '(C) peer alive but still loading, peer with other files, peer shut down: a distributable statement (auto and forced) must fail or - when discovery already dropped the peer - be decided before any fan-out; distributed=0 still answers')
     native.run(rep, 'c35')
 
